@@ -17,6 +17,7 @@ struct RefModel {
 	std::vector<uint8_t> touched;  // regions whose sub-state choice was (re)made by the batch
 	// pending target map
 	std::vector<int> P;
+	std::vector<int> path;	 // per composite region: prong on the path of some request of the batch (also where nothing had to change)
 	std::vector<uint8_t> obit;	// per state: "its orthogonal parent was asked to (re)activate this child"
 	// answers of the environment in this step
 	std::function<int(int)> selectOf;
@@ -36,7 +37,7 @@ struct RefModel {
 				for (int p = 0; p < E::D(r).width; ++p)
 					if (before.resumable[E::child(r, p)]) res[r] = p;
 			}
-		P.assign(N, -1); obit.assign(N, 0);
+		P.assign(N, -1); obit.assign(N, 0); path.assign(N, -1);
 		left.assign(N, -2); touched.assign(N, 0);
 	}
 
@@ -127,6 +128,7 @@ struct RefModel {
 			return;
 		}
 		if (P[s] >= 0) follow(E::child(s, P[s]), kind);
+		else if (path[s] >= 0 && act[s] == path[s]) { P[s] = path[s]; follow(E::child(s, P[s]), kind); }	// an earlier request's path is kept
 		else resolve(s, kind);
 	}
 	void walkActive(int s, int kind) {	// from the root along untouched active regions down to the re-targeted sub-tree
@@ -156,6 +158,7 @@ struct RefModel {
 			const int a = E::D(s).parent;
 			if (E::isOrtho(a)) { obit[s] = 1; continue; }
 			const int pr = E::D(s).prong;
+			path[a] = pr;
 			if (first) { P[a] = pr; touched[a] = 1; first = false; }
 			else if ((P[a] >= 0 && P[a] != pr) || act[a] != pr) { P[a] = pr; touched[a] = 1; }
 		}
